@@ -47,6 +47,8 @@ def _val(ctx: Ctx, fi: FuncInfo, e: ast.AST, env=None):
             v = frozenset(v)
         except TypeError:
             v = UNKNOWN
+    elif isinstance(v, range) and (v.stop - v.start) > 10000:
+        return v
     elif isinstance(v, (list, tuple, range)):
         try:
             v = frozenset(v)
